@@ -17,12 +17,14 @@ func init() {
 				return []registry.Job{
 					{Name: "eth-FX+usdt-calls", Spec: &bridge.Spec{Prop: "C05", Chains: []string{"eth"}, Tokens: []string{"FX", "usdt"}, Book: true, Calls: true, MaxSend: 3}, Depth: 7, ShardDepth: 2},
 					{Name: "bsc-usdt+tok-evm", Spec: &bridge.Spec{Prop: "C05", Chains: []string{"bsc"}, Tokens: []string{"usdt", "tok"}, Book: true, EVM: true, MaxSend: 3}, Depth: 6, ShardDepth: 2},
+					{Name: "batch-life-cycle-deep", Spec: &bridge.Spec{Prop: "C05", Chains: []string{"eth"}, Tokens: []string{"FX", "usdt"}, Book: true, Ledger: true, MaxSend: 4, Focus: "batches"}, Depth: 9, ShardDepth: 2},
 					{Name: "tron-FX", Spec: &bridge.Spec{Prop: "C05", Chains: []string{"tron"}, Tokens: []string{"FX"}, Book: true, Calls: true, MaxSend: 4}, Depth: 8, ShardDepth: 2},
 				}
 			}
 			return []registry.Job{
 				{Name: "eth-FX+usdt-calls", Spec: &bridge.Spec{Prop: "C05", Chains: []string{"eth"}, Tokens: []string{"FX", "usdt"}, Book: true, Calls: true, MaxSend: 3}, Depth: 5, ShardDepth: 2},
 				{Name: "eth-usdt-evm", Spec: &bridge.Spec{Prop: "C05", Chains: []string{"eth"}, Tokens: []string{"usdt"}, Book: true, EVM: true, MaxSend: 2}, Depth: 5, ShardDepth: 2},
+				{Name: "batch-life-cycle-deep", Spec: &bridge.Spec{Prop: "C05", Chains: []string{"eth"}, Tokens: []string{"FX", "usdt"}, Book: true, Ledger: true, MaxSend: 3, Focus: "batches"}, Depth: 7, ShardDepth: 2},
 			}
 		},
 	})
